@@ -142,11 +142,28 @@ fn exercise<B: Backend>(w: &World<B>, parser: &str, text: &str) -> Vec<Value> {
             if let Some(t) = s.run("parse(aad)", || SealedToken::<B::V, Local, Raw, Vec<u8>>::from_str(text)) {
                 s.run("decrypt(aad)", || t.unseal(&w.local, b"assertion", &NoValidation::dangerous_no_validation()).map(|_| ()));
             }
+            // the same string for the other footer and payload types: no footer allowed, JSON footer + JSON payload, registered claims
+            s.run("parse(unit footer)", || SealedToken::<B::V, Local, Raw, ()>::from_str(text).map(|_| ()));
+            if let Some(t) = s.run("parse(json)", || SealedToken::<B::V, Local, paseto_json::Json<Value>, paseto_json::Json<Value>>::from_str(text)) {
+                s.run_inf("to_string(json)", || t.to_string());
+                s.run("decrypt(json)", || t.unseal(&w.local, &[], &NoValidation::dangerous_no_validation()).map(|_| ()));
+            }
+            if let Some(t) = s.run("parse(claims)", || SealedToken::<B::V, Local, paseto_json::RegisteredClaims, Vec<u8>>::from_str(text)) {
+                s.run("decrypt(claims)", || t.unseal(&w.local, &[], &NoValidation::dangerous_no_validation()).map(|_| ()));
+            }
         }
         "token.public" => {
             if let Some(t) = s.run("parse", || SealedToken::<B::V, Public, Raw, Vec<u8>>::from_str(text)) {
                 s.run_inf("to_string", || t.to_string());
                 s.run("verify", || t.unseal(&w.public, &[], &NoValidation::dangerous_no_validation()).map(|_| ()));
+            }
+            s.run("parse(unit footer)", || SealedToken::<B::V, Public, Raw, ()>::from_str(text).map(|_| ()));
+            if let Some(t) = s.run("parse(json)", || SealedToken::<B::V, Public, paseto_json::Json<Value>, paseto_json::Json<Value>>::from_str(text)) {
+                s.run_inf("to_string(json)", || t.to_string());
+                s.run("verify(json)", || t.unseal(&w.public, &[], &NoValidation::dangerous_no_validation()).map(|_| ()));
+            }
+            if let Some(t) = s.run("parse(claims)", || SealedToken::<B::V, Public, paseto_json::RegisteredClaims, Vec<u8>>::from_str(text)) {
+                s.run("verify(claims)", || t.unseal(&w.public, &[], &NoValidation::dangerous_no_validation()).map(|_| ()));
             }
         }
         "key.local" | "key.public" | "key.secret" => {
@@ -316,6 +333,31 @@ pub fn run_backend<B: Backend>(rec: &mut Recorder, progress: &mut std::fs::File,
                 go(rec, parser, format!("{hdr}{body}"), json!({"raw_chars":n,"fill":fill}));
                 if parser.starts_with("token") {
                     go(rec, parser, format!("{hdr}{}.{body}", crate::b64::enc(&rng.bytes(70))), json!({"raw_chars":n,"fill":fill,"where":"footer"}));
+                }
+            }
+        }
+        // authentic tokens (sealed with this world's keys, so the typed decoders do run) whose payload or footer is damaged JSON text:
+        // documents that end after a line feed, lone surrogates, deep nesting, multi-byte characters at every offset near 64, ...
+        if parser.starts_with("token") {
+            let mut docs: Vec<Vec<u8>> = ["", "\n", "{\n", "{\"kid\":\"x\",\n", "[1,\n2,\n", "\r\n", " ", "nul", "{\"a\":1}\n\n", "{\"a\":1}}", "\"\\ud800\"", "{\"exp\":\"\n", "{\"exp\":1}",
+                "{\"exp\":\"2039-01-01T00:00:00Z\",\n", "\u{feff}{}", "1e999", "-", "[", "{\"\":"].iter().map(|d| d.as_bytes().to_vec()).collect();
+            docs.push([b"[".repeat(200), b"]".repeat(200)].concat());
+            docs.push(vec![0xff; 40]);
+            docs.push(vec![0xc3]);
+            for at in 56..=70usize {
+                docs.push(format!("{{\"k\":\"{}\u{e9}\u{20ac}\u{1f600}\"}}", "a".repeat(at.saturating_sub(6))).into_bytes());
+                docs.push(["\u{4e2d}".repeat(at / 3).as_bytes(), &vec![b'x'; at % 3][..], "\u{e9}".as_bytes()].concat());
+            }
+            for d in &docs {
+                for (what, claims, footer) in [("payload", d.clone(), Vec::new()), ("footer", b"{}".to_vec(), d.clone()), ("both", d.clone(), d.clone())] {
+                    let t = if parser == "token.local" {
+                        UnsealedToken::<B::V, Local, Raw>::new(Raw(claims)).with_footer(footer).seal(&w.local, &[]).map(|t| t.to_string())
+                    } else {
+                        UnsealedToken::<B::V, Public, Raw>::new(Raw(claims)).with_footer(footer).seal(&w.secret, &[]).map(|t| t.to_string())
+                    };
+                    if let Ok(t) = t {
+                        go(rec, parser, t, json!({"damaged_json":what,"doc_len":d.len()}));
+                    }
                 }
             }
         }
